@@ -1,0 +1,13 @@
+//go:build verif
+
+package alt
+
+// VerifResetCaches empties the struct decomposition plan caches so a
+// verification history can restart from the initial process state. It is
+// compiled only with the verif build tag.
+func VerifResetCaches() {
+	structMut.Lock()
+	structMap = map[uintptr]*sinfo{}
+	structEmptyMap = map[uintptr]*sinfo{}
+	structMut.Unlock()
+}
